@@ -17,9 +17,16 @@ inductive Init where
 deriving Repr
 
 /-- state after an emplacer ran: the bytes, and `Ok`/`Err` -/
+instance : DecidableEq (Except Err Unit)
+  | .ok (), .ok () => isTrue rfl
+  | .error a, .error b => if h : a = b then isTrue (by rw [h]) else isFalse (by intro hh; cases hh; exact h rfl)
+  | .ok (), .error _ => isFalse (by intro h; cases h)
+  | .error _, .ok () => isFalse (by intro h; cases h)
+
 structure EO where
   bytes : Bytes
   res : Except Err Unit
+deriving DecidableEq
 
 def EO.ok (b : Bytes) : EO := ⟨b, .ok ()⟩
 def EO.err (b : Bytes) (k : EKind) (p : Nat) : EO := ⟨b, .error ⟨k, p⟩⟩
@@ -182,4 +189,32 @@ def emplace (t : Ty) (i : Init) (s : Slice) : Res EO :=
   | .err e => .ok ⟨s.bytes, .error e⟩
   | .fault f => .fault f
   | .ok () => emplaceU t i s
+end FV
+
+namespace FV
+/-- `assign_in_place` on a valid value mapped from `s`: the emplacer runs unchecked on the value's own bytes
+(`as_mut_bytes()`), everything after them is untouched. -/
+def assign (t : Ty) (i : Init) (s : Slice) : Res EO :=
+  (t.dict.viewLen s.len).bind fun v =>
+    (emplaceU t i (s.take v)).bind fun o => .ok ⟨o.bytes ++ s.bytes.drop v, o.res⟩
+
+/-- replace a byte value inside every raw sized image of an initialiser (used to tell padding from data) -/
+def substB (a b : UInt8) (bs : Bytes) : Bytes := bs.map fun x => if x = a then b else x
+mutual
+def Init.subst (a b : UInt8) : Init → Init
+  | .raw bs => .raw (substB a b bs)
+  | .vecEmpty => .vecEmpty
+  | .vecArr xs => .vecArr (xs.map (substB a b))
+  | .vecIter xs => .vecIter (xs.map (substB a b))
+  | .strEmpty => .strEmpty
+  | .strFrom bs => .strFrom bs
+  | .flexEmpty => .flexEmpty
+  | .flexIter items => .flexIter (substL a b items)
+  | .ustruct fields last => .ustruct (fields.map (substB a b)) (last.subst a b)
+  | .uenum idx fields none => .uenum idx (fields.map (substB a b)) none
+  | .uenum idx fields (some l) => .uenum idx (fields.map (substB a b)) (some (l.subst a b))
+def substL (a b : UInt8) : List Init → List Init
+  | [] => []
+  | x :: xs => x.subst a b :: substL a b xs
+end
 end FV
